@@ -4,6 +4,24 @@ import json, sys
 ALL = ["C%02d" % i for i in range(1, 21)]
 
 CHECKS = {
+ "C12": dict(
+   category="exploration",
+   text="Grammar-derived documents (own AST model, random layout) must parse to the derivation's tree; all single-token deletions/duplications/swaps and a fixed third of an 18-token substitution pool per position, raw insertions (forbidden code points, quotes, comment openers, separators, malformed versions) and ~140 hand-written near-miss forms are decided by a reference tokenizer+recogniser written from LANGUAGE.md; wac must agree on membership, on the tree when both accept, and locate its error inside the source when both reject.",
+   note="Reference recogniser follows LANGUAGE.md's EBNF with tolerances T1/T2 (position of `...`, empty argument lists: rejected later by the resolver / used throughout the prose) and upper-case words (pinned lexer test). Version validity delegated to the `semver` crate. Deviations of the pinned parser from the EBNF are attributed by name; three are listed known findings.",
+   technique="property-based testing: grammar-based generation + exhaustive single-token mutation per document, differential against a reference recogniser (proptest, manual shrinking)",
+   design="C12"),
+ "C13": dict(
+   category="exploration",
+   text="For grammar-derived documents with random layout/comments and every .wac file shipped in the repository: print(parse(s)) re-parses, span-stripped trees (plus the exact source text of every identifier/package name/path; docs flattened per T6) are equal, and printing again is byte-identical. Label floors make the run fail if any construct named in the statement stops being generated.",
+   note="Inputs the parser rejects are outside the domain (counted as foreign). T6: doc comments compared as non-empty trimmed lines.",
+   technique="property-based testing: round-trip and idempotence oracle over grammar-generated documents and the repository corpus (proptest)",
+   design="C13"),
+ "C14": dict(
+   category="exploration",
+   text="Total-function oracle over ~190k (quick) generated inputs: repository fixtures with their packages under 0-3 byte/substring mutations and missing/rotated/corrupted packages, grammar-generated documents with mutations, arbitrary Unicode, package byte strings (fixture packages, 16 shaped WAT components, WASI dummies) with mutations, every truncation point, random bytes; plus a nesting ladder run in a supervised worker process so stack overflows are observed from the wait status. Panics are caught and attributed to their site; every span in trees and diagnostic labels must be inside the source on char boundaries; miette must render every diagnostic.",
+   note="Termination is not decided (a hang would be reported as inconclusive). Stack exhaustion is judged for the harness release profile on an 8 MiB stack. Unbounded parser recursion is a listed known finding per nesting shape.",
+   technique="property-based testing / fuzzing: mutation-based generation from a seed corpus + grammar generator, crash/total-function oracle with span and render checks, supervised worker for aborts (proptest)",
+   design="C14"),
  "C15": dict(
    category="exploration",
    text="Exhaustive enumeration of the statement's small name universe (all ordered pairs, all triples for transitivity, every insertion order of every <=4-subset followed by every lookup) plus seeded random names, each compared with a reference semver-track relation and reference map written from the statement. Exhaustive for the enumerated universe; random elsewhere.",
